@@ -26,6 +26,7 @@ import PynetVerif.Driver.Deliver
 import PynetVerif.Driver.Pair
 import PynetVerif.Driver.Pause
 import PynetVerif.Driver.Life
+import PynetVerif.Driver.Wake
 open PynetVerif
 
 /-- Each model contributes `String → List SExp → Option SExp` (none = not my op). -/
@@ -56,7 +57,8 @@ def handlers : List (String → List SExp → Option SExp) :=
    Driver.deliverOps,
    Driver.pairOps,
    Driver.pauseOps,
-   Driver.lifeOps]
+   Driver.lifeOps,
+   Driver.wakeOps]
 
 def handle (e : SExp) : SExp :=
   match e with
